@@ -367,6 +367,34 @@ ShapesEchoWaiter ==
   \cup {[IP6S("client", "lla", 40 + 8 + 16, 8 + 16, p, 0, 0, 0, t) EXCEPT !.app = "echo-waiter"] :
       p \in {ProtoICMP4, ProtoICMP6}, t \in {0, 129, 128}}
 
+(* J. Session configuration classes.  Parse must return for every byte string in every session NewSession    *)
+(* accepts, and what it decodes (error, PayloadID, offsets, addresses) does not depend on the NIC configuration; *)
+(* only host tracking does (TracksCfg, mechanism level).                                                       *)
+SessionConfigs == {"no-router-mac",      \* RouterAddr4.MAC empty (IPv6-only / isolated LAN)
+                   "no-host-mac",        \* HostAddr4.MAC empty (tun-style NIC)
+                   "no-host-lla",        \* HostLLA zero
+                   "router-ip-invalid",  \* RouterAddr4.IP invalid
+                   "lan-32",             \* HomeLAN4 = host address /32
+                   "lan-0"}              \* HomeLAN4 = 0.0.0.0/0
+InLAN(sip, cfg) == CASE cfg = "lan-0"  -> sip \in {"lan", "hostip", "routerip", "offlan", "zero", "bcast4"}
+                     [] cfg = "lan-32" -> sip = "hostip"
+                     [] OTHER          -> sip \in {"lan", "hostip", "routerip"}
+IsOwn(src, cfg)    == src = "own" /\ cfg # "no-host-mac"        \* an empty configured MAC equals no frame MAC
+IsRouter(src, cfg) == src = "router" /\ cfg # "no-router-mac"
+TracksCfg(s, cfg) ==
+  CASE s.path = "ip4" -> ~IsOwn(s.src, cfg) /\ InLAN(s.sip, cfg)
+    [] s.path = "ip6" -> ~IsOwn(s.src, cfg) /\ (s.sip = "lla" \/ (s.sip \in {"gua", "ula"} /\ ~IsRouter(s.src, cfg)))
+    [] s.path = "arp" -> ~IsOwn(s.src, cfg) /\ InLAN(s.sip, cfg)
+    [] OTHER -> FALSE
+WithCfg(o, s, cfg) == IF o.err \/ "panic" \in DOMAIN o THEN o
+                      ELSE [o EXCEPT !.tracked = (o.hasip \/ o.id = PARP) /\ Unicast(s.src) /\ TracksCfg(s, cfg)]
+ConfigShapes ==
+  ShapesShort \cup ShapesSrc
+  \cup {x \in ShapesARP : x.hlen = 6 /\ x.plen = 4 /\ x.flen \in {14 + 27, 14 + 28, 14 + 46}}
+  \cup {x \in ShapesL2 : x.flen \in {14, 60}}
+  \cup {x \in ShapesIP6Hdr : x.flen \in {14 + 40, 14 + 48}}
+ConfigCases == {[cfg |-> c, s |-> x] : c \in SessionConfigs, x \in ConfigShapes}
+
 ParseShapes == ShapesEchoWaiter \cup ShapesShort \cup ShapesL2 \cup ShapesIP4Hdr \cup ShapesIP4L4 \cup ShapesIP6Hdr
                \cup ShapesIP6L4 \cup ShapesPorts \cup ShapesARP \cup ShapesSrc \cup ShapesVlanInner \cup ShapesApp
 
@@ -394,7 +422,7 @@ L4Reps(fam, src, sip) ==
   \cup {W(p, 0, 0, 8 + 24, 0, t) : p \in {ProtoICMP4, ProtoICMP6}, t \in ICMPTypes}
   \cup {W(ProtoIGMP, 0, 0, 8, 0, 0), W(ProtoOther, 0, 0, 9, 0, 0), W(0, 0, 0, 16, 0, 0)}
 
-AllocCases ==
+AllocBase ==
   \* IP frames: tracked / new / untracked by rule
   {[s |-> sh, status |-> "tracked"] : sh \in L4Reps(4, "client", "lan") \cup L4Reps(6, "client", "lla") \cup L4Reps(6, "client", "gua")}
   \cup {[s |-> sh, status |-> "new"] : sh \in L4Reps(4, "client", "lan") \cup L4Reps(6, "client", "lla")}
@@ -414,7 +442,18 @@ AllocCases ==
   \cup {[s |-> [Base EXCEPT !.etype = et, !.flen = 60, !.src = src], status |-> "no-ip"] :
            et \in NamedL2 \cup {EtVLAN, EtQinQ, 46, 34997}, src \in {"client", "router"}}
 
-AllocExpect(c) == [allocFree |-> AllocFree(c.status),
+(* Two more dimensions (the statement is about every session the package accepts, not one tuning):      *)
+(*   log   : level of the package logger: "error" (quiet harness) or "default" (Info, what a default       *)
+(*           configured program runs with);                                                                *)
+(*   quiet : "none" = frames back to back; "quiet" = the tracked, online host was silent for longer than  *)
+(*           ProbeDeadline (and shorter than OfflineDeadline) before this frame.                           *)
+(* AllocFree does not depend on either.                                                                    *)
+AllocCases ==
+  {[s |-> c.s, status |-> c.status, quiet |-> "none", log |-> lg] : c \in AllocBase, lg \in {"error", "default"}}
+  \cup {[s |-> c.s, status |-> c.status, quiet |-> "quiet", log |-> lg] :
+           c \in {x \in AllocBase : x.status = "tracked"}, lg \in {"error", "default"}}
+
+AllocExpect(c) == [allocFree |-> AllocFree(c.status), quiet |-> c.quiet, log |-> c.log,
                    hostSet |-> Tracks(c.s) /\ Unicast(c.s.src) /\ c.s.path \in {"ip4", "ip6", "arp"},
                    o |-> ParseOutcome(c.s)]
 
